@@ -179,6 +179,128 @@ static void do_demarshal (const char *hex)
   free (b);
 }
 
+/* ---- C02: construction programs ------------------------------------------
+ * build <type> <flags> <serial> <setters> <token>...
+ *   setters: comma separated, applied in order: path=<hex>,iface=<hex>,member=<hex>,err=<hex>,dest=<hex>,sender=<hex>,rs=<n>,ci=<hex> ("-" for none)
+ *   tokens : y5 b1 n7 q7 i7 u7 x7 t7 d7 h7 (unsigned decimal of the bit pattern) s<hex> o<hex> g<hex>
+ *            A<elemsig> ... ]   ( ... )   { ... }   V<sig> <one value> ;
+ */
+static char **g_tok; static int g_ntok, g_pos;
+
+static dbus_bool_t append_tokens (DBusMessageIter *it, const char *closer)
+{
+  while (g_pos < g_ntok)
+    {
+      char *t = g_tok[g_pos++];
+      if (closer != NULL && strcmp (t, closer) == 0) return TRUE;
+      switch (t[0])
+        {
+        case 'y': { unsigned char v = (unsigned char) strtoul (t + 1, NULL, 10); if (!dbus_message_iter_append_basic (it, DBUS_TYPE_BYTE, &v)) return FALSE; break; }
+        case 'b': { dbus_bool_t v = (dbus_bool_t) strtoul (t + 1, NULL, 10); if (!dbus_message_iter_append_basic (it, DBUS_TYPE_BOOLEAN, &v)) return FALSE; break; }
+        case 'n': case 'q': { dbus_uint16_t v = (dbus_uint16_t) strtoul (t + 1, NULL, 10); if (!dbus_message_iter_append_basic (it, t[0], &v)) return FALSE; break; }
+        case 'i': case 'u': { dbus_uint32_t v = (dbus_uint32_t) strtoul (t + 1, NULL, 10); if (!dbus_message_iter_append_basic (it, t[0], &v)) return FALSE; break; }
+        case 'x': case 't': case 'd': { dbus_uint64_t v = (dbus_uint64_t) strtoull (t + 1, NULL, 10); if (!dbus_message_iter_append_basic (it, t[0], &v)) return FALSE; break; }
+        case 's': case 'o': case 'g': { int n; unsigned char *b = unhex (t + 1, &n); const char *p = (const char *) b; dbus_bool_t ok = dbus_message_iter_append_basic (it, t[0], &p); free (b); if (!ok) return FALSE; break; }
+        case 'A': { DBusMessageIter sub; if (!dbus_message_iter_open_container (it, DBUS_TYPE_ARRAY, t + 1, &sub)) return FALSE;
+                    if (!append_tokens (&sub, "]")) return FALSE; if (!dbus_message_iter_close_container (it, &sub)) return FALSE; break; }
+        case '(': { DBusMessageIter sub; if (!dbus_message_iter_open_container (it, DBUS_TYPE_STRUCT, NULL, &sub)) return FALSE;
+                    if (!append_tokens (&sub, ")")) return FALSE; if (!dbus_message_iter_close_container (it, &sub)) return FALSE; break; }
+        case '{': { DBusMessageIter sub; if (!dbus_message_iter_open_container (it, DBUS_TYPE_DICT_ENTRY, NULL, &sub)) return FALSE;
+                    if (!append_tokens (&sub, "}")) return FALSE; if (!dbus_message_iter_close_container (it, &sub)) return FALSE; break; }
+        case 'V': { DBusMessageIter sub; if (!dbus_message_iter_open_container (it, DBUS_TYPE_VARIANT, t + 1, &sub)) return FALSE;
+                    if (!append_tokens (&sub, ";")) return FALSE; if (!dbus_message_iter_close_container (it, &sub)) return FALSE; break; }
+        default: return FALSE;
+        }
+    }
+  return closer == NULL;
+}
+
+static char *hexstr (const char *h) { int n; if (!strcmp (h, "~")) return NULL; return (char *) unhex (h, &n); }
+
+static dbus_bool_t apply_setter (DBusMessage *m, const char *kv)
+{
+  const char *eq = strchr (kv, '='); char *v; dbus_bool_t ok = TRUE;
+  if (eq == NULL) return TRUE;
+  if (!strncmp (kv, "rs=", 3)) return dbus_message_set_reply_serial (m, (dbus_uint32_t) strtoul (eq + 1, NULL, 10));
+  v = hexstr (eq + 1);
+  if (!strncmp (kv, "path=", 5)) ok = dbus_message_set_path (m, v);
+  else if (!strncmp (kv, "iface=", 6)) ok = dbus_message_set_interface (m, v);
+  else if (!strncmp (kv, "member=", 7)) ok = dbus_message_set_member (m, v);
+  else if (!strncmp (kv, "err=", 4)) ok = dbus_message_set_error_name (m, v);
+  else if (!strncmp (kv, "dest=", 5)) ok = dbus_message_set_destination (m, v);
+  else if (!strncmp (kv, "sender=", 7)) ok = dbus_message_set_sender (m, v);
+  else if (!strncmp (kv, "ci=", 3)) ok = dbus_message_set_container_instance (m, v);
+  else if (!strncmp (kv, "strip=", 6)) ok = _dbus_message_remove_unknown_fields (m);
+  free (v);
+  return ok;
+}
+
+static void do_build (void)
+{
+  char *toks[4096]; int n = 0; char *t; DBusMessage *m, *copy; DBusMessageIter it; int type, flags; unsigned long serial; char *setters, *sp, *kv;
+  while (n < 4096 && (t = strtok (NULL, " ")) != NULL) toks[n++] = t;
+  if (n < 4) { printf ("?bad-args\n"); return; }
+  type = atoi (toks[0]); flags = atoi (toks[1]); serial = strtoul (toks[2], NULL, 10); setters = toks[3];
+  m = dbus_message_new (type);
+  if (m == NULL) { printf ("refused-new\n"); return; }
+  if (flags & 1) dbus_message_set_no_reply (m, TRUE);
+  if (flags & 2) dbus_message_set_auto_start (m, FALSE);
+  if (flags & 4) dbus_message_set_allow_interactive_authorization (m, TRUE);
+  for (kv = strtok_r (setters, ",", &sp); kv != NULL; kv = strtok_r (NULL, ",", &sp))
+    if (!apply_setter (m, kv)) { printf ("refused-setter %s\n", kv); dbus_message_unref (m); return; }
+  g_tok = toks + 4; g_ntok = n - 4; g_pos = 0;
+  dbus_message_iter_init_append (m, &it);
+  if (!append_tokens (&it, NULL)) { printf ("refused-append at token %d\n", g_pos); dbus_message_unref (m); return; }
+  dbus_message_set_serial (m, (dbus_uint32_t) serial);
+  printf ("bytes="); put_marshalled (m);
+  printf (" dump="); dump_message (m);
+  /* copy: equal message with serial 0 */
+  copy = dbus_message_copy (m);
+  if (copy == NULL) printf (" copy=OOM");
+  else
+    {
+      printf (" copyserial=%u copy=", dbus_message_get_serial (copy));
+      dbus_message_set_serial (copy, (dbus_uint32_t) serial);
+      put_marshalled (copy);
+      dbus_message_unref (copy);
+    }
+  printf ("\n");
+  dbus_message_unref (m);
+}
+
+/* swap <hex> : load one message (any byte order), read it through the iterator API (which converts it to
+ * the native byte order), dump and re-marshal */
+static void do_swap (const char *hex)
+{
+  int n; unsigned char *b = unhex (hex, &n); DBusError e; DBusMessage *m;
+  dbus_error_init (&e);
+  m = dbus_message_demarshal ((const char *) b, n, &e);
+  if (m == NULL) { printf ("corrupt\n"); dbus_error_free (&e); free (b); return; }
+  printf ("dump="); dump_message (m);
+  printf (" bytes="); put_marshalled (m);
+  printf ("\n");
+  dbus_message_unref (m); free (b);
+}
+
+/* edit <hex> <op>... : load one message, apply header edits in order, print the marshalled form after each */
+static void do_edit (const char *hex)
+{
+  int n; unsigned char *b = unhex (hex, &n); DBusError e; DBusMessage *m; char *op; int k = 0;
+  dbus_error_init (&e);
+  m = dbus_message_demarshal ((const char *) b, n, &e);
+  free (b);
+  if (m == NULL) { printf ("corrupt\n"); dbus_error_free (&e); return; }
+  while ((op = strtok (NULL, " ")) != NULL)
+    {
+      if (k++) putchar ('|');
+      if (!apply_setter (m, op)) printf ("refused");
+      else put_marshalled (m);
+    }
+  if (k == 0) put_marshalled (m);
+  printf ("\n");
+  dbus_message_unref (m);
+}
+
 int main (void)
 {
   char *line = NULL; size_t cap = 0; ssize_t got;
@@ -189,6 +311,7 @@ int main (void)
       if (line[got - 1] == '\n') line[got - 1] = 0;
       cmd = strtok (line, " ");
       if (cmd == NULL) { printf ("\n"); continue; }
+      if (!strcmp (cmd, "build")) { do_build (); continue; }
       a1 = strtok (NULL, " ");
       if (a1 == NULL) a1 = "-";
       if (!strcmp (cmd, "iface")) do_name (a1, _dbus_validate_interface, dbus_validate_interface);
@@ -200,6 +323,8 @@ int main (void)
       else if (!strcmp (cmd, "sig")) do_sig (a1);
       else if (!strcmp (cmd, "load")) do_load (a1);
       else if (!strcmp (cmd, "demarshal")) do_demarshal (a1);
+      else if (!strcmp (cmd, "swap")) do_swap (a1);
+      else if (!strcmp (cmd, "edit")) do_edit (a1);
       else printf ("?unknown-command\n");
     }
   free (line);
